@@ -294,6 +294,14 @@ int vw_spawn(int p, void (*entry)(void *), void *arg)
 	proc_ctx[p].uc_stack.ss_size = pr->stacksz;
 	proc_ctx[p].uc_link = NULL;
 	makecontext(&proc_ctx[p], trampoline, 0);
+#if VW_ASAN
+	/* ASan's swapcontext() interceptor wipes the shadow of the whole target stack (uc_stack) on every switch "to avoid false
+	 * positives": the redzones of every frame that is alive across a select() - the handshake functions' in[4096], say - were
+	 * gone after the first switch and an overflow of such a buffer went unseen.  swapcontext() itself does not need uc_stack
+	 * once makecontext() has set up the registers, and the fiber switches are announced properly (start/finish_switch_fiber). */
+	proc_ctx[p].uc_stack.ss_sp = NULL;
+	proc_ctx[p].uc_stack.ss_size = 0;
+#endif
 	pr->state = VW_P_READY;
 	pr->deadline = VW_NEVER;
 	return p;
